@@ -157,10 +157,19 @@ def session_engine_calls(repo):
 LOG_LEVELS = {"debug": 10, "info": 20, "warning": 30, "error": 40, "exception": 40, "critical": 50}
 
 
+# provenance classes of logged values; codes >= 10 may carry secrets
+LOG_CLASS_CODE = {"const": 0, "id": 1, "enumname": 2, "time": 3, "exception": 4, "config": 5, "tainted": 10, "unknown": 11}
+
+
 def classify_log_arg(node):
     """Provenance class of one formatted argument of a logger call (conservative)."""
     src = ast.unparse(node)
     s = src.replace(" ", "")
+    config_exact = {"filenames", "self.host", "conf.DEFAULT_TIMEOUT", "path", "length", "public_exponent",
+                    "self.config.settings.get('hostname')", "self.config.settings.get('port')", "address[0]",
+                    "address[1]", "session_name", "self._max_buffer_size", "timeout", "host", "self.port"}
+    if s in config_exact:
+        return "config"
     safe_exact = {
         "self.name", "name", "plugin_name", "f", "p", "policy", "then", "now", "operation",
         "attribute_name", "encryption_key_uuid", "unique_identifier", "protocol_version",
@@ -401,8 +410,9 @@ def generate(repo):
     # --- logger sites -----------------------------------------------------
     rows = []
     for rel, line, meth, level, classes in logger_sites(repo):
-        rows.append("{ file := %s, line := %d, level := %d, args := [%s] }" % (
-            lean_str(rel), line, level, ", ".join(lean_str(c) for c in classes)))
+        rows.append("{ file := %s, line := %d, level := %d, args := [%s], argCodes := [%s] }" % (
+            lean_str(rel), line, level, ", ".join(lean_str(c) for c in classes),
+            ", ".join(str(LOG_CLASS_CODE.get(c.split(":")[0], 11)) for c in classes)))
     w("def logSites : List LogSite := %s\n\n" % lean_list(rows, 1))
 
     w("end Kmip.Gen\n")
